@@ -155,7 +155,7 @@ FILTER_RE = re.compile(
     r"if\s+last_seq\s*\.map\(\s*\|\s*last\s*\|\s*event\.seq\s*(<=|<|>=|>|==|!=)\s*last\s*\)\s*\.unwrap_or\(\s*(true|false)\s*\)\s*\{\s*return\s+None\s*;\s*\}")
 
 
-def read_handler(src, fname, snap_re):
+def read_handler(src, fname, snap_re, shared_channel=False):
     sp = fn_span(src, fname)
     if not sp:
         return None, f"handler {fname} not found"
@@ -199,9 +199,18 @@ def read_handler(src, fname, snap_re):
             return None, f"{fname}: live filter drops `event.seq {op} last` (not modelled)"
     else:
         return None, f"{fname}: {len(fl)} seq filters in the live stream"
+    # a channel shared by several streams (continuity channel: all threads): the live stream must drop the frames
+    # of other streams BEFORE anything else (model: `own`)
+    if shared_channel:
+        om = re.search(r"if\s+event\.session_id\s*!=\s*thread_id\s*\{\s*return\s+None\s*;\s*\}", live)
+        sm = FILTER_RE.search(live)
+        if not om or (sm and om.start() > sm.start()):
+            return None, f"{fname}: shared channel but no `if event.session_id != thread_id {{ return None; }}` before the seq filter"
+        if not re.search(r"let\s+thread_id_live\s*=\s*thread_id\.clone\(\)\s*;", body) or not re.search(r"let\s+thread_id\s*=\s*thread_id_live\.clone\(\)\s*;", live):
+            return None, f"{fname}: the id the live filter compares with is not the requested thread id"
     # a lagged receiver is skipped silently (model: NoLag hypothesis / c06_lag_refuted)
     lag_swallowed = bool(re.search(r"Err\(_\)\s*=>\s*None", live))
-    return {"sorder": so, "filter": flt, "lag_swallowed": lag_swallowed}, None
+    return {"sorder": so, "filter": flt, "lag_swallowed": lag_swallowed, "own_filter": shared_channel}, None
 
 
 # ----------------------------------------------------------------- generate
@@ -236,7 +245,7 @@ def extract(repo):
         if prod is None:
             ok = False
             notes.append(f"{name} producer: {why}")
-        hand, why = (None, "server.rs not found") if server is None else read_handler(server, hfn, snap_re)
+        hand, why = (None, "server.rs not found") if server is None else read_handler(server, hfn, snap_re, shared_channel=(name == "thread"))
         if hand is None:
             ok = False
             notes.append(f"{name} handler: {why}")
@@ -272,6 +281,8 @@ def generate(repo):
         if prod and "buffer" in prod:
             detail = f"; history buffer = {prod['buffer']}"
         lag = f"; lagged receiver skipped silently = {hand['lag_swallowed']}" if hand else ""
+        if hand and hand.get("own_filter"):
+            lag += "; shared channel, frames of other streams dropped by session_id" 
         L.append(f"(* {name}: producer {po}{detail}; handler {so}, live filter {fl}{lag} *)")
         L.append(f"Definition gen_kind_{name} : kind_orders :=")
         L.append(f"  {{| k_name := {code}; k_p := {po}; k_s := {so}; k_f := {fl}; k_cap := {cap or 0} |}}.")
@@ -337,7 +348,9 @@ def selftest():
     e, _ = h(ST_SNAP, ST_SUB, "<=")
     f, _ = h(ST_SUB, ST_SNAP, "<")
     g, why = h(ST_SUB, ST_SNAP, "==")
-    assert d == {"sorder": "SubThenSnap", "filter": "FilterGtLast", "lag_swallowed": True}, d
+    assert d == {"sorder": "SubThenSnap", "filter": "FilterGtLast", "lag_swallowed": True, "own_filter": False}, d
+    k, why_k = read_handler(ST_HANDLER.replace("%S1%", ST_SUB).replace("%S2%", ST_SNAP).replace("%OP%", "<="), "stream_events", r"\.events_snapshot\(\)", shared_channel=True)
+    assert k is None and "shared channel" in why_k, (k, why_k)
     assert e and e["sorder"] == "SnapThenSub", e
     assert f and f["filter"] == "FilterGeLast", f
     assert g is None and "not modelled" in why, (g, why)
